@@ -5,6 +5,7 @@ package sugardb
 
 import (
 	"strconv"
+	"time"
 
 	vr "github.com/echovault/sugardb/internal/verifrt"
 )
@@ -503,5 +504,37 @@ func Verif_C01_Append() {
 		vr.Assert(err != nil, "C01.append.wrongtype")
 		c01Holds(s, k, p, "C01.append.wrongtype_unchanged")
 	}
+	vr.Reach("end")
+}
+
+// Verif_C01_RenameCarriesDeadline: state carried between commands - RENAME moves the value *and* the
+// source's deadline (or absence of one) to the new name, whatever the destination held before: absent,
+// a value without deadline, or a live value with its own deadline (which must not survive).
+func Verif_C01_RenameCarriesDeadline() {
+	s := verifServer()
+	t0 := time.UnixMilli(1_700_000_000_000)
+	s.clock = verifClock{now: &t0}
+	src, dst := vr.Tok("src"), vr.Tok("dst")
+	vr.Assume(src != dst)
+	verifPreset(s, 0, src, "fresh")
+	want := "s:fresh"
+	if vr.Choose("src_volatile", 2) == 1 {
+		verifPresetExpiry(s, 0, src, t0.Add(50*time.Second))
+		want = "s:fresh@" + itoa(int(t0.Add(50*time.Second).UnixMilli()))
+	}
+	switch vr.Choose("dst", 3) {
+	case 1:
+		verifPreset(s, 0, dst, "old")
+	case 2:
+		verifPreset(s, 0, dst, "old")
+		verifPresetExpiry(s, 0, dst, t0.Add(100*time.Second))
+	}
+	reply, err, panicked := verifRun(s, "RENAME", src, dst)
+	vr.Assert(!panicked && err == nil && isOK(reply), "C01.rename_deadline.reply")
+	if panicked || err != nil {
+		return
+	}
+	vr.Assert(c09Digest(s, 0, dst) == want, "C01.rename_deadline.new_name_has_the_value_and_the_deadline_of_the_old")
+	vr.Assert(c09Digest(s, 0, src) == "<absent>", "C01.rename_deadline.old_gone")
 	vr.Reach("end")
 }
